@@ -361,7 +361,7 @@ def run(ctx):
     check_read_lengths(P, eng, r5)
 
     # ------------------------------------------------------------------ R4
-    r4 = ctx.rule("C07.R4", "the bad flag of the framing transports is only ever set to true")
+    r4 = ctx.rule("C07.R4", "the bad flag of the framing transports is only ever set to true, and tested before the sub-socket is used")
     for f in P.functions:
         for b, i, e, lhs, rhs, op in f.stores():
             flds = f.fields_of(lhs)
@@ -372,6 +372,19 @@ def run(ctx):
                 else:
                     r4.violation("%s:bad-reset" % f.name, "the sticky failure flag is modified with %s" % f.show(e), loc=f.loc(e))
     r4.floor(2, "stores to the bad flag")
+    # ... and it is tested before the sub-socket is touched: a connection that failed (mid-frame) must answer with its
+    # recorded reason and not resume reading the byte stream at an arbitrary offset
+    from .C06 import BadFirst
+    for t in tables:
+        if t.proto not in ("tcp", "tls"):
+            continue
+        for slot in ("send", "receive", "finish"):
+            f = t.slots[slot]
+            r4.instance("%s.%s: sticky flag first" % (t.proto, slot))
+            br = BadFirst(P, f, r4)
+            S.run(br, f)
+            if not br.viol:
+                r4.ok("%s tests the sticky flag before using the sub-socket" % f.qname, "path exploration")
 
     # ------------------------------------------------------------------ R6
     r6 = ctx.rule("C07.R6", "a TLS protocol error drains OpenSSL's error queue on every path")
